@@ -758,7 +758,7 @@ void generate(const std::string &, Rng &wl, Rng &fl, Case &c)
   int nproc            = (int)wl.range(1, 3);
   int layout           = (int)wl.below(1 << nproc);
   int nspans           = (int)wl.range(1, kMaxSpans);
-  int ntasks           = (int)wl.range(1, 2);
+  int ntasks           = (int)wl.range(1, vsim::tier_scale() > 1 && wl.chance(0.3) ? 3 : 2);
   c.set("nproc", nproc);
   c.set("layout", layout);
   c.set("nspans", nspans);
@@ -777,7 +777,7 @@ void generate(const std::string &, Rng &wl, Rng &fl, Case &c)
   for (int t = 0; t < ntasks; ++t)
   {
     TaskProg p;
-    int n = (int)wl.range(1, 10);
+    int n = (int)wl.range(1, vsim::tier_scale() > 1 && wl.chance(0.5) ? 16 : 10);
     for (int i = 0; i < n; ++i)
     {
       int64_t s = (int64_t)wl.below(nspans);
